@@ -39,7 +39,7 @@ ID = "C16"
 LEAN_TARGETS = ["RV.C16.Props", "RV.C16.Audit"]
 AUDIT = "RV/C16/Audit.lean"
 DRIVER = "drv_c16"
-CASES = {"quick": 1400, "thorough": 40000, "search": 12000}
+CASES = {"quick": 2000, "thorough": 30000, "search": 12000}
 RULE = ("random result tables (0-4 variables, 0-8 rows, any pattern of unbound cells incl. all-unbound rows and "
         "leading/trailing unbound columns; terms of every kind from a pool with control characters, quotes, "
         "backslashes, tabs, line ends, U+0085/U+2028, non-BMP) built directly as Result objects or by a real "
@@ -161,7 +161,13 @@ def rand_choices(rng, rows, mode):
                 cr.append([0, 0, []])
                 continue
             lex = t[1] if t[0] in "PTL" else ""
-            ks = [rng.randint(0, 1) for _ in lex] if ("\x08" in lex or "\x0c" in lex) else []
+            if mode == 1:
+                ks = []
+            else:
+                pu = rng.choice([0.0, 0.0, 0.15, 0.5])
+                ks = [(rng.choice([2, 3]) if rng.random() < pu else rng.randint(0, 1)) for _ in lex]
+                while ks and ks[-1] == 0:
+                    ks.pop()
             cr.append([rng.randint(0, 1), 1 if mode == 1 or rng.random() < 0.6 else 0, ks])
         out.append(cr)
     return out
@@ -170,12 +176,13 @@ def rand_choices(rng, rows, mode):
 def gen_case(rng, tier, i):
     via = "query" if rng.random() < 0.25 else "direct"
     src = "bytes" if rng.random() < 0.7 else "text"
+    dest = "stream" if rng.random() < 0.25 else "bytes"
     if rng.random() < 0.04:
-        return {"kind": "ask", "via": via, "src": src, "value": rng.random() < 0.5}
+        return {"kind": "ask", "via": via, "src": src, "dest": dest, "value": rng.random() < 0.5}
     nv = rng.choice([0, 1, 1, 2, 2, 2, 3, 3, 4])
     nr = rng.choice([0, 1, 1, 2, 2, 3, 3, 4, 5, 6, 8])
     vars_ = rng.sample(VARNAMES, nv)
-    p_unbound = rng.choice([0.0, 0.15, 0.3, 0.5, 0.85, 1.0])
+    p_unbound = rng.choice([0.0, 0.1, 0.2, 0.35, 0.35, 0.6, 0.6, 1.0])
     small_pool = [rand_term(rng) for _ in range(rng.choice([1, 2, 4, 8]))]  # repeated terms within a table
     rows = []
     for _ in range(nr):
@@ -198,7 +205,7 @@ def gen_case(rng, tier, i):
     if nv == 0:
         via = "direct"
     tsv = [rand_choices(rng, rows, 0), rand_choices(rng, rows, 1), rand_choices(rng, rows, 2)]
-    return {"kind": "select", "via": via, "src": src, "vars": vars_, "rows": rows, "tsv": tsv}
+    return {"kind": "select", "via": via, "src": src, "dest": dest, "vars": vars_, "rows": rows, "tsv": tsv}
 
 
 # ------------------------------------------------------------------ building results
@@ -461,8 +468,17 @@ def short_ok(lex, dt):
             or (dt == XSDS + "double" and _is_dbl(u)))
 
 
+def _uchar(c, lower):
+    o = ord(c)
+    h = ("\\u%04X" % o) if o < 0x10000 else ("\\U%08X" % o)
+    return h[:2] + h[2:].lower() if lower else h
+
+
 def tsv_quoted(lex, sq, ks):
+    """k per character: 0 = raw where the grammar allows, 1 = ECHAR where one exists, 2 / 3 = UCHAR (upper / lower
+    case hex) where a numeric escape is safe; the quote itself, backslash, tab, LF, CR always as ECHAR"""
     q = "'" if sq else '"'
+    other = '"' if sq else "'"
     out = [q]
     for j, c in enumerate(lex):
         k = ks[j] if j < len(ks) else 0
@@ -476,10 +492,14 @@ def tsv_quoted(lex, sq, ks):
             out.append("\\n")
         elif c == "\r":
             out.append("\\r")
-        elif c == "\x08" and k:
+        elif k >= 2:
+            out.append(_uchar(c, k == 3))
+        elif c == "\x08" and k == 1:
             out.append("\\b")
-        elif c == "\x0c" and k:
+        elif c == "\x0c" and k == 1:
             out.append("\\f")
+        elif c == other and k == 1:
+            out.append("\\" + other)
         else:
             out.append(c)
     out.append(q)
@@ -536,7 +556,7 @@ def _cmp_tables(tag, case, got_vars, got_rows, extra, viol):
 def run_impl(case):
     obs, viol, xviol = [], [], []
     src = case["src"]
-    st = {"via_" + case["via"]: 1, "src_" + src: 1, "kind_" + case["kind"]: 1}
+    st = {"via_" + case["via"]: 1, "src_" + src: 1, "kind_" + case["kind"]: 1, "dest_" + case.get("dest", "bytes"): 1}
     res = build_result(case)
     want = "ok " + enc_case_result(case)
     if canon(res) != want:
@@ -546,7 +566,12 @@ def run_impl(case):
         tag = fmt
         sink = xviol if fmt == "xml" else viol
         try:
-            data = build_result(case).serialize(format=fmt)
+            if case.get("dest") == "stream":
+                buf = io.BytesIO()
+                build_result(case).serialize(destination=buf, format=fmt)
+                data = buf.getvalue()
+            else:
+                data = build_result(case).serialize(format=fmt)
         except Exception as e:  # noqa: BLE001
             sink.append(f"{tag}: serialize raised {type(e).__name__}: {str(e)[:80]}")
             obs += [err_name(e)] * 3
@@ -568,7 +593,14 @@ def run_impl(case):
             continue
         gv, gr, extra = table_of(back)
         if fmt != "csv":
+            n0 = len(sink)
             _cmp_tables(tag, case, gv, gr, extra, sink)
+            if len(sink) == n0:
+                # the container's own notion of equality and size must agree with the cell-wise oracle
+                if not (back == res and res == back):
+                    sink.append(f"{tag}: Result.__eq__ says the round-tripped result differs from the original")
+                if len(back) != len(case["rows"]):
+                    sink.append(f"{tag}: len(result) is {len(back)} for {len(case['rows'])} rows")
         else:
             if gv != case["vars"]:
                 sink.append(f"csv: variables {gv!r} instead of {case['vars']!r}")
@@ -680,18 +712,23 @@ def select_model_obs(case, out):
 
 # ------------------------------------------------------------------ shrinking and known findings
 
-def _simpler_terms(t):
+def _simpler_terms(t, ks):
+    """(smaller term, per-character choices that go with it)"""
     if t is None:
         return
-    yield None
+    yield None, []
     if t[0] != "P":
-        yield ["P", t[1]]
+        yield ["P", t[1]], ks
     s = t[1]
     if len(s) > 1:
         for j in range(len(s)):
-            yield [t[0], s[:j] + s[j + 1:]] + t[2:]
+            yield [t[0], s[:j] + s[j + 1:]] + t[2:], ks[:j] + ks[j + 1:]
     if t[0] == "P" and s not in ("a", ""):
-        yield ["P", "a"]
+        yield ["P", "a"], ks[:1]
+    if any(ks):
+        for j, k in enumerate(ks):
+            if k:
+                yield t, ks[:j] + [0] + ks[j + 1:]
 
 
 def shrink(case):
@@ -702,6 +739,8 @@ def shrink(case):
         yield {**case, "via": "direct"}
     if case["src"] != "bytes":
         yield {**case, "src": "bytes"}
+    if case.get("dest", "bytes") != "bytes":
+        yield {**case, "dest": "bytes"}
     for i in range(len(rows)):
         yield {**case, "rows": rows[:i] + rows[i + 1:], "tsv": [c[:i] + c[i + 1:] for c in tsv]}
     for j in range(len(vars_)):
@@ -712,14 +751,15 @@ def shrink(case):
             yield {**case, "tsv": [tsv[k]]}
     for i, r in enumerate(rows):
         for j, t in enumerate(r):
-            for t2 in _simpler_terms(t):
+            ks0 = tsv[0][i][j][2] if tsv else []
+            for t2, ks2 in _simpler_terms(t, ks0):
                 if t2 is not None and not _stable(t2):
                     continue
                 nr = [list(x) for x in rows]
                 nr[i][j] = t2
                 nt = [[[list(c) for c in cr] for cr in chs] for chs in tsv]
-                for chs in nt:
-                    chs[i][j] = [chs[i][j][0], chs[i][j][1], []]
+                for k, chs in enumerate(nt):
+                    chs[i][j] = [chs[i][j][0], chs[i][j][1], list(ks2) if k == 0 else []]
                 yield {**case, "rows": nr, "tsv": nt}
     for k, chs in enumerate(tsv):
         for i, cr in enumerate(chs):
@@ -752,4 +792,25 @@ def _m_xml_char(case, result):
     return any(not _xml_char(c) for s in strings for c in s)
 
 
-MATCHERS = {"xml_non_xml_char": _m_xml_char}
+def _viols(result, prefix):
+    return bool(result["viol"]) and all(v.startswith(prefix) for v in result["viol"])
+
+
+def _strings(case):
+    return [t[1] for r in case.get("rows", []) for t in r if t]
+
+
+# matchers of the *fixed* findings document the shape of each repaired defect (core.py consults
+# matchers for `known` entries only; a fixed witness that fails again is always a VIOLATION)
+MATCHERS = {
+    "xml_non_xml_char": _m_xml_char,
+    "tsv_unbound_row_dropped": lambda c, r: _viols(r, "tsv: ") and any(all(t is None for t in row) for row in c["rows"]),
+    "xsv_unicode_linebreak": lambda c, r: any(ch in s for s in _strings(c) for ch in "\x0b\x0c\x1c\x1d\x1e\x85\u2028\u2029")
+    and all(v.startswith(("csv: ", "tsv: ")) for v in r["viol"]) and bool(r["viol"]),
+    "xml_falsy_literal": lambda c, r: _viols(r, "xml: row"),
+    "xml_cr_lost": lambda c, r: _viols(r, "xml: row") and any("\r" in s for s in _strings(c)),
+    "tsv_negative_decimal": lambda c, r: _viols(r, "tsv: reader raised TypeError"),
+    "tsv_zero_vars": lambda c, r: _viols(r, "tsv: reader raised ParseException") and not c["vars"],
+    "tsv_string_escapes": lambda c, r: _viols(r, "tsv: reader raised ParseException")
+    and any(k for chs in c["tsv"] for cr in chs for cell in cr for k in cell[2]),
+}
